@@ -336,10 +336,12 @@ def run_subprocess(plan, opt, rng, fmt):
         argv, _, per_model, out_path = materialise(plan, opt, random.Random(rng.random()), work, fmt)
         with open(os.path.join(work, "j2m_raising_gen.py"), "w") as f:
             f.write(RAISING_GEN)
-        env = dict(os.environ, PYTHONPATH=os.pathsep.join([REPO, work]), PYTHONDONTWRITEBYTECODE="1")
+        # a UTF-8 standard output, as the model (and the in-process recorder) assume: under the C / POSIX locale Python would
+        # let undecodable argv bytes through to stdout again (surrogateescape) instead of failing to encode them
+        env = dict(os.environ, PYTHONPATH=os.pathsep.join([REPO, work]), PYTHONDONTWRITEBYTECODE="1", PYTHONIOENCODING="utf-8:strict")
         env.pop("J2M_VERIF", None)
         p = subprocess.run([sys.executable, "-m", "json_to_models"] + argv, cwd=work, env=env, stdout=subprocess.PIPE,
-                           stderr=subprocess.PIPE, text=True, timeout=120)
+                           stderr=subprocess.PIPE, text=True, encoding="utf-8", errors="replace", timeout=120)
         after, data = file_state(out_path, plan["out"])
         out = p.stdout
         kind = "code" if out.startswith('r"""') else ("message" if out.strip() else "none")
